@@ -24,6 +24,9 @@ def sel_to_py(s):
         return slice(s[1], s[2], s[3])
     if s[0] == 'l':
         return [int(i) for i in s[1]]
+    if s[0] == 'b':
+        # boolean mask over the axis (e.g. the result of a comparison on the times)
+        return np.array([bool(i) for i in s[1]])
     raise ValueError(s)
 
 
@@ -46,6 +49,10 @@ def sel_indices(s, n):
                 raise OutOfDomain('list index %d outside [-%d,%d)' % (k, n, n))
             out.append(k % n)
         return out
+    if s[0] == 'b':
+        if len(s[1]) != n:
+            raise OutOfDomain('mask of length %d on an axis of length %d' % (len(s[1]), n))
+        return [k for k, b in enumerate(s[1]) if b]
     raise ValueError(s)
 
 
